@@ -12,6 +12,9 @@ import (
 	extv1 "k8s.io/apiextensions-apiserver/pkg/apis/apiextensions/v1"
 	metav1 "k8s.io/apimachinery/pkg/apis/meta/v1"
 	"k8s.io/apimachinery/pkg/runtime"
+	"k8s.io/utils/ptr"
+
+	xpv1 "github.com/crossplane/crossplane-runtime/apis/common/v1"
 
 	v1 "github.com/crossplane/crossplane/apis/apiextensions/v1"
 	zz "github.com/crossplane/crossplane/internal/zzverif"
@@ -70,7 +73,7 @@ func zzSchema(k0, k1, s0, req string, maxLen int64, hasMaxLen bool) runtime.RawE
 // HarnessC11CRDs: the CRDs derived from an XRD.
 //
 //gosym:harness
-//gosym:cover shadow-attempt plain-author-key two-versions claim-name-collision name-length-capped
+//gosym:cover shadow-attempt plain-author-key two-versions claim-name-collision name-length-capped default-policy
 func HarnessC11CRDs() {
 	// one author property with a symbolic name (it may be named like any
 	// machinery field), one with a plain name
@@ -98,6 +101,19 @@ func HarnessC11CRDs() {
 	if nVersions == 2 {
 		zz.Cover("two-versions")
 	}
+	// the XRD may set defaults for the two policy fields, and labels for its CRDs
+	extras := zz.Choose("xrd.extras", 3) // none, default policies, CRD labels and annotations
+	defUpdate, defDelete := extras == 1, extras == 1
+	if defUpdate {
+		xrd.Spec.DefaultCompositionUpdatePolicy = ptr.To(xpv1.UpdateManual)
+	}
+	if defDelete {
+		xrd.Spec.DefaultCompositeDeletePolicy = ptr.To(xpv1.CompositeDeleteForeground)
+	}
+	crdLabels := extras == 2
+	if crdLabels {
+		xrd.Spec.Metadata = &v1.CompositeResourceDefinitionSpecMetadata{Labels: map[string]string{"team": "a"}, Annotations: map[string]string{"note": "n"}}
+	}
 	// claim names: symbolic, may collide with the composite's names
 	hasClaim := zz.Bool("claim.names")
 	ck := []string{"Thing", "XThing"}[zz.Choose("claim.kind", 2)]
@@ -108,6 +124,9 @@ func HarnessC11CRDs() {
 
 	check := func(crd *extv1.CustomResourceDefinition, machinery []string, std map[string]extv1.JSONSchemaProps, scope extv1.ResourceScope, what string) {
 		zz.Assert(what+"-scope", crd.Spec.Scope == scope)
+		if crdLabels {
+			zz.Assert(what+"-carries-the-xrds-crd-labels", crd.GetLabels()["team"] == "a" && crd.GetAnnotations()["note"] == "n")
+		}
 		zz.Assert(what+"-group", crd.Spec.Group == "example.org")
 		ors := crd.GetOwnerReferences()
 		zz.Assert(what+"-controlled-by-xrd", len(ors) == 1 && ors[0].UID == zzXRDUID && ors[0].Controller != nil && *ors[0].Controller)
@@ -126,6 +145,16 @@ func HarnessC11CRDs() {
 			for _, m := range machinery {
 				got, ok := spec.Properties[m]
 				zz.Assert(what+"-machinery-field-present", ok)
+				// the XRD may set the default of the two policy fields; nothing else
+				if (m == "compositionUpdatePolicy" && defUpdate && what == "composite") || (m == "compositeDeletePolicy" && defDelete && what == "claim") {
+					zz.Cover("default-policy")
+					zz.Assert(what+"-policy-default-is-the-xrds", got.Default != nil && (string(got.Default.Raw) == `"Manual"` || string(got.Default.Raw) == `"Foreground"`))
+					got.Default = nil
+					want := std[m]
+					want.Default = nil
+					zz.Assert(what+"-machinery-field-has-standard-schema", reflect.DeepEqual(got, want))
+					continue
+				}
 				zz.Assert(what+"-machinery-field-has-standard-schema", reflect.DeepEqual(got, std[m]))
 			}
 			for _, ak := range []struct {
